@@ -507,6 +507,39 @@ def _run_idxpoint(desc):
         indexing.loglevel = 4
         case = {"kind": "idxpoint", "geometry": (k_ * 5) % 32, "ngrains_at_the_point": ng, "seed": seed_of()}
         found = [np.asarray(r_[2], float) for r_ in res if r_[0] > 0]
+        if ng == 2:
+            # the same point through the worker entry points: initializer(parameter file, phase, symmetry, peaks file) and proxy(),
+            # after the process was initialised once before for the SAME files with another symmetry (a first run with the wrong
+            # setting): the orientations are reduced with the group asked for last
+            import shutil
+            from ImageD11 import columnfile as cfm
+            wd = os.path.join(c09.WORK, "c16_ip_%d" % os.getpid())
+            shutil.rmtree(wd, ignore_errors=True)
+            os.makedirs(wd)
+            try:
+                parfile, colfile = os.path.join(wd, "p.par"), os.path.join(wd, "icolf.h5")
+                P.parameters(**pars).saveparameters(parfile)
+                cols = {"xl": xyz[0].copy(), "yl": xyz[1].copy(), "zl": xyz[2].copy(), "omega": omega.copy(), "eta": pk[:, 8].copy(),
+                        "dtyi": np.zeros(n, int), "sinomega": so.copy(), "cosomega": co.copy(), "isel": np.ones(n, int)}
+                with contextlib.redirect_stdout(io.StringIO()):
+                    cfm.colfile_to_hdf(cfm.colfile_from_dict(cols), colfile, name="peaks", compression=None)
+                    opts = dict(ystep=1.0, y0=0.0, ymin=0.0, minpks=int(0.6 * n / ng), hkl_tol=0.03, ds_tol=0.005, forgen=[0, 1, 2], uniqcut=0.5, hmax=8)
+                    pbp.initializer(parfile, None, "triclinic", colfile, loglevel=4)
+                    pbp.proxy((0, 0, opts))
+                    pbp.initializer(parfile, None, "cubic", colfile, loglevel=4)
+                    _, _, res2 = pbp.proxy((0, 0, opts))
+                indexing.loglevel = 4
+                found2 = [np.asarray(r_[2], float) for r_ in res2 if r_[0] > 0]
+                for u_true, _ in truth:
+                    want = sym_u.find_uniq_u(u_true, grp)
+                    if len(found2) != ng or not any(np.abs(f - want).max() < 1e-3 * np.abs(want).max() for f in found2):
+                        sh.violation("idxpoint[initializer called again with another symmetry]:not-reduced-with-the-group-asked-for-last",
+                                     dict(case, history=["initializer(triclinic)", "proxy", "initializer(cubic)", "proxy"]), {"found": len(found2)})
+                        break
+                sh.evaluations += 1
+            finally:
+                pbp.colglobal = None
+                shutil.rmtree(wd, ignore_errors=True)
         if len(found) != ng:
             sh.violation("idxpoint:number-of-orientations-at-the-point", case, {"found": len(found)})
         else:
